@@ -468,6 +468,9 @@ def c17(ctx):
     # enumerated sequences with fork probes after every operation (assertions on, no sanitizer)
     ctx.stage("enum-dbg", "qptr", "dbg", worker_args(ctx.seed, tot, 16, ["--mode", "enum", "--len", str(L)]), timeout=3600)
     ctx.stage("random-dbg", "qptr", "dbg", worker_args(ctx.seed, scaled(240000 if t else 32000), 16, ["--mode", "random"]), timeout=3600)
+    # the same with a second registered thread that never quiesces: every probed quiescent state is the thread's 2nd, 3rd, ... in one epoch
+    ctx.stage("random-dbg-companion", "qptr", "dbg", worker_args(ctx.seed + 5, scaled(120000 if t else 16000), 16, ["--mode", "random", "--companion", "1"]), timeout=3600)
+    ctx.stage("enum3-dbg-companion", "qptr", "dbg", worker_args(ctx.seed, QPTR_TOTAL[3], 16, ["--mode", "enum", "--len", "3", "--companion", "1"]), timeout=3600)
     # NDEBUG: semantics, and every probe must be accepted
     ctx.stage("enum-rel", "qptr", "rel", worker_args(ctx.seed, tot, 16, ["--mode", "enum", "--len", str(L), "--last-only", "1"]), timeout=3600)
     ctx.stage("random-rel", "qptr", "rel", worker_args(ctx.seed + 11, scaled(160000 if t else 24000), 16, ["--mode", "random"]), timeout=3600)
@@ -487,7 +490,7 @@ def c17(ctx):
     ctx.assumptions = ["self-assignment excluded as the property states; moved-from spans are only destroyed or assigned to",
                        "a live non-null wrapper on a paused thread cannot be produced without breaking another precondition: qsbr_resume only in the accepted direction",
                        "the harness process is single-threaded, so fork() is safe"]
-    ctx.floors = [("probes", 10000), ("probes_rejected", 1000), ("probes_accepted", 1000), ("span_checks", 1000), ("probe_pause", 100), ("probe_resume", 100)]
+    ctx.floors = [("probes", 10000), ("probes_rejected", 1000), ("probes_accepted", 1000), ("span_checks", 1000), ("probe_pause", 100), ("probe_resume", 100), ("sequences_with_companion_thread", 1000)]
 
 
 # ------------------------------------------------------------ E5 mutex_lin
